@@ -649,47 +649,66 @@ package gocql
 // of Conn/Session (configuration objects set by the constructors) are `requires`.
 // ---------------------------------------------------------------------------
 
+//@ func (recv context.Context) Done
+//@   interface
+//@   trusted standard library contexts do not write driver objects
+//@   modifies nothing
+
+//@ func (recv context.Context) Err
+//@   interface
+//@   trusted standard library contexts do not write driver objects
+//@   modifies nothing
+
 //@ func (s *startupCoordinator) write
 //@   props C05 C20
-//@   requires s.conn != nil && ctx != nil
+//@   requires s.conn != nil && ctx != nil && conn_ok(s.conn) && frame != nil
 //@   ensures nonnilptr(result0)
-//@   ensures s.conn == old(s.conn) && s.conn.cfg == old(s.conn.cfg) && s.conn.compressor == old(s.conn.compressor)
+//@   ensures s.conn == old(s.conn) && s.conn.cfg == old(s.conn.cfg) && s.conn.compressor == old(s.conn.compressor) && conn_ok(s.conn)
 
 //@ func (s *startupCoordinator) options
 //@   props C05
-//@   requires s.conn != nil && ctx != nil && s.conn.cfg != nil
+//@   requires s.conn != nil && ctx != nil && s.conn.cfg != nil && conn_ok(s.conn)
 
 // A compressor is kept only if the server advertised its name in SUPPORTED (spec §4.1.1 STARTUP).
 //@ func (s *startupCoordinator) startup
 //@   props C05 C18 C20
 //@   count_calls Name
-//@   requires s.conn != nil && ctx != nil && s.conn.cfg != nil
+//@   requires s.conn != nil && ctx != nil && s.conn.cfg != nil && conn_ok(s.conn)
 //@   before[C18] write: s.conn.compressor != nil ==> s.conn.compressor == old(s.conn.compressor) && haskey(m, "COMPRESSION")
 //@   loop 0: invariant !haskey(m, "COMPRESSION") && Name_calls == 1 && s.conn.compressor == old(s.conn.compressor) && s.conn.compressor != nil
 //@   loop 0: exit haskey(m, "COMPRESSION") ==> exists(k, 0 <= k && k < old(len(supported["COMPRESSION"])), old(supported["COMPRESSION"][k]) == Name_ret0)
 
 // no AUTH_RESPONSE is written without an authenticator, nor after the authenticator refused the server's class
+//@ func (recv Authenticator) Challenge
+//@   interface
+//@   trusted authenticators compute responses; they do not write connection state
+//@   preserves_types Conn callReq IDGenerator startupCoordinator authenticateFrame
+
 //@ func (s *startupCoordinator) authenticateHandshake
 //@   props C05 C20
 //@   count_calls write Challenge
-//@   requires s.conn != nil && ctx != nil && authFrame != nil
+//@   requires s.conn != nil && ctx != nil && authFrame != nil && conn_ok(s.conn)
+//@   stable_across Challenge: s.conn.calls
+//@   loop 0: invariant conn_ok(s.conn) && s.conn == old(s.conn) && s.conn != nil
 //@   ensures[C20] old(s.conn.auth) == nil ==> result != nil && write_calls == 0 && Challenge_calls == 0
 //@   ensures[C20] write_calls > 0 ==> old(s.conn.auth) != nil && Challenge_calls > 0
 //@   loop 0: invariant Challenge_calls > 0 && old(s.conn.auth) != nil
 
 //@ func (c *Conn) heartBeat
 //@   props C05
-//@   requires ctx != nil
+//@   requires ctx != nil && conn_ok(c)
+//@   loop 0: invariant conn_ok(c)
 
 // controlConn.conn (atomic.Value) only ever holds *connHost values with a connection (setupConn)
 //@ func (c *controlConn) getConn
 //@   props C05
-//@   trusted atomic.Value holds only *connHost with conn != nil (stored by setupConn)
+//@   trusted atomic.Value holds only *connHost with a connection in service (stored by setupConn)
 //@   modifies nothing
-//@   ensures result == nil || result.conn != nil
+//@   ensures result == nil || (result.conn != nil && conn_ok(result.conn))
 
 //@ func (c *controlConn) writeFrame
 //@   props C05
+//@   requires w != nil
 //@   ensures nonnilptr(result0)
 
 //@ func (c *controlConn) heartBeat
